@@ -34,6 +34,7 @@ inductive Val where
   | durs (xs : List Bytes)
   | times (xs : List Bytes)
   | fallback (t : Bytes)            -- fmt.Sprintf("{{%v}}", v)
+  | textm (t fb : Bytes)            -- an encoding.TextMarshaler (not a json.Marshaler): its text outside JSON, the %v fallback in JSON
   | group (items : List (Option (Bytes × Bool × Val)))  -- Attrs: members (nil members allowed): key, isGroup, value
   deriving Repr
 
@@ -135,6 +136,7 @@ def encVal (c : EncCfg) : (fuel : Nat) → (pfx : Bytes) → Val → Bytes
   | _, _, .durs xs => bracket (xs.map c.quote)
   | _, _, .times xs => bracket (xs.map (timeText c))
   | _, _, .fallback t => c.quote t
+  | _, _, .textm t fb => if c.json then c.quote fb else c.quote t
   | 0, _, .group _ => []
   | fuel + 1, pfx, .group items =>
     if c.json then [123] ++ encAttrs c fuel pfx true (prepAttrs items) ++ [125]
